@@ -26,7 +26,7 @@ type c11conn struct {
 }
 
 var c11resumeAns = []string{"resumed-same", "resumed-other", "failed", "failed-known-condition", "failed-no-condition", "unexpected", "close"}
-var c11enableAns = []string{"enabled-resume-true", "enabled-resume-false", "failed", "unexpected", "close", "enabled-resume-true-no-id", "enabled-resume-true-empty-id"}
+var c11enableAns = []string{"enabled-resume-true", "enabled-resume-false", "failed", "unexpected", "close", "enabled-resume-true-no-id", "enabled-resume-true-empty-id", "enabled-id-no-resume", "enabled-id-resume-false"}
 
 func c11queue(cl *Client) string {
 	if cl.Session == nil || cl.Session.SMState.UnAckQueue == nil {
@@ -71,8 +71,9 @@ func c11body(maxConns, nStanzas int) func() {
 			return
 		}
 		// reference machine
-		refID := ""        // id the client must present (when it may resume)
-		refMaybe := false  // after a connection without sm: presenting refID or nothing are both fine
+		refID := ""          // id the client must present (when it may resume)
+		refMaybe := false    // after a connection without sm: presenting refID or nothing are both fine
+		refOptional := false // an id given without granting resumption: presenting it or not are both fine, counts asserted
 		refCount := 0
 		stale := map[string]bool{}
 		hist := ""
@@ -123,7 +124,7 @@ func c11body(maxConns, nStanzas int) func() {
 						vrt.Fail("C11|resume-wrong-count", "%s: <resume h=%q>, reference %d", hist, attr(raw, "h"), refCount)
 					}
 				}
-			} else if mayResume && !refMaybe && r.AuthOK && r.FailStep == "" && len(r.Requests) > 1 {
+			} else if mayResume && !refMaybe && !refOptional && r.AuthOK && r.FailStep == "" && len(r.Requests) > 1 {
 				vrt.Fail("C11|resumable-session-not-resumed", "%s: connection %d held id %q but bound without asking to resume (requests %v)", hist, cur, refID, r.Requests)
 			}
 			resumed := len(r.ResumeSeen) == 1 && pc.resume == "resumed-same" && r.Resumed
@@ -164,9 +165,15 @@ func c11body(maxConns, nStanzas int) func() {
 					stale[refID] = true // superseded by the new session
 				}
 				if pc.enable == "enabled-resume-true" && r.EnableOK {
-					refID, refCount, refMaybe = fmt.Sprintf("smid-%d", cur), 0, false
+					refID, refCount, refMaybe, refOptional = fmt.Sprintf("smid-%d", cur), 0, false, false
+					delete(stale, refID)
+				} else if strings.HasPrefix(pc.enable, "enabled-id-") && r.EnableOK {
+					// an id was given and resumption was not granted: presenting that id later, or not, are both within
+					// the property - but when it is presented, it is that id with the current count
+					refID, refCount, refMaybe, refOptional = fmt.Sprintf("smid-%d", cur), 0, false, true
 					delete(stale, refID)
 				} else {
+					refOptional = false
 					if refID != "" {
 						stale[refID] = true
 					}
